@@ -701,6 +701,19 @@ impl BytecodeInterpreter {
             .iter()
             .find(|l| l.identifiers.iter().any(|n| n == name))
     }
+
+    #[cfg(feature = "verif-hooks")]
+    pub(crate) fn verif_raw_global(&self, name: &str) -> Option<Value> {
+        let position = self.locals[0]
+            .iter()
+            .rposition(|l| l.identifiers.iter().any(|n| n == name))?;
+        self.vm.verif_stack_slot(position)
+    }
+
+    #[cfg(feature = "verif-hooks")]
+    pub(crate) fn verif_vm_shape(&self) -> (usize, usize) {
+        self.vm.verif_shape()
+    }
 }
 
 impl Interpreter for BytecodeInterpreter {
